@@ -32,6 +32,7 @@ type Solver struct {
 	SolverNS  int64
 	Fallbacks int
 	timeoutMS int
+	bin       string
 	dump      io.Writer
 	deflog    []defEntry
 }
@@ -44,8 +45,8 @@ type defEntry struct {
 
 type scopeMark struct{ n int }
 
-func NewSolver(timeoutMS int) (*Solver, error) {
-	s := &Solver{timeoutMS: timeoutMS}
+func NewSolver(timeoutMS int, bin string) (*Solver, error) {
+	s := &Solver{timeoutMS: timeoutMS, bin: bin}
 	if err := s.start(); err != nil {
 		return nil, err
 	}
@@ -53,10 +54,14 @@ func NewSolver(timeoutMS int) (*Solver, error) {
 }
 
 func (s *Solver) start() error {
-	bin := os.Getenv("SYMGO_Z3")
+	bin := s.bin
+	if bin == "" {
+		bin = os.Getenv("SYMGO_Z3")
+	}
 	if bin == "" {
 		bin = "z3"
 	}
+	s.bin = bin
 	cmd := exec.Command(bin, "-in", fmt.Sprintf("-t:%d", s.timeoutMS))
 	in, err := cmd.StdinPipe()
 	if err != nil {
@@ -275,7 +280,11 @@ func (s *Solver) fallback() SatResult {
 		return Unknown
 	}
 	to := fmt.Sprintf("%d", s.timeoutMS*3)
-	if r := try("z3-new", "-in", "-t:"+to); r != Unknown {
+	other := "z3-new"
+	if s.bin == "z3-new" {
+		other = "z3"
+	}
+	if r := try(other, "-in", "-t:"+to); r != Unknown {
 		return r
 	}
 	if r := try("cvc5", "--lang=smt2", "--tlimit="+to, "--incremental"); r != Unknown {
